@@ -21,6 +21,8 @@ func init() {
 			ruleC07R2(r)
 			ruleC07R3(r)
 			ruleDispatchLoopsSurvive(r, "R4", "/wire", "/iscp")
+			ruleC07R5(r)
+			r.borrow("C08", func() { ruleD1(r) }) // a reply abandoned by one stream must not stall the router of all
 		},
 	})
 }
@@ -511,6 +513,7 @@ func ruleDispatchLoopsSurvive(r *Run, id string, pkgs ...string) {
 				return
 			}
 			n++
+			nb := 0
 			name := fnName(fn)
 			// shutdown branches in the body
 			var shut []*ssa.BasicBlock
@@ -556,7 +559,185 @@ func ruleDispatchLoopsSurvive(r *Run, id string, pkgs ...string) {
 				r.Check(fmt.Sprintf("%s return#%d inside the message loop", name, k), okRet, posOf(p, ret), name, "a return inside the body of the loop over "+u.X.Name()+" ends dispatch for every stream of the connection; only a shutdown branch (receive from Done()/Closed()) may do that")
 			}
 			r.Check(name+" loop over incoming messages", bad == 0, posOf(p, u), name, fmt.Sprintf("%d return(s) inside the loop body, %d not on a shutdown branch", k, bad))
+			// a batch carried by one message is handled to its end: an inner loop over a slice of the received message is
+			// left only through its header (an element that cannot be routed is skipped, not the rest of the batch)
+			for _, h := range fn.Blocks {
+				if !(body.Dominates(h)) || !(h.Comment == "rangeindex.loop" || h.Comment == "rangeiter.loop") {
+					continue
+				}
+				inner := naturalLoop(h)
+				fromMsg := false
+				for b := range inner {
+					for _, x := range b.Instrs {
+						var base ssa.Value
+						switch y := x.(type) {
+						case *ssa.IndexAddr:
+							base = y.X
+						case *ssa.Index:
+							base = y.X
+						case *ssa.Next:
+							if rg, isR := y.Iter.(*ssa.Range); isR {
+								base = rg.X
+							}
+						}
+						if base != nil && derivesFrom(base, u, 0) {
+							fromMsg = true
+						}
+					}
+				}
+				if !fromMsg {
+					continue
+				}
+				var leak *ssa.BasicBlock
+				for b := range inner {
+					if b == h {
+						continue
+					}
+					onShutdown := false
+					for _, sb := range shut {
+						if sb == b || sb.Dominates(b) {
+							onShutdown = true
+						}
+					}
+					for _, sc := range b.Succs {
+						if !inner[sc] && !onShutdown {
+							leak = b
+						}
+					}
+				}
+				where := posOf(p, h.Instrs[len(h.Instrs)-1])
+				if leak != nil {
+					where = posOf(p, leak.Instrs[len(leak.Instrs)-1])
+				}
+				nb++
+				r.Check(fmt.Sprintf("%s batch loop#%d handles every element", name, nb), leak == nil, where, name, "the loop over the elements of one received message is left from inside its body (break or return): the elements after the first one that could not be handled are dropped")
+			}
 		})
 	}
 	r.Stat("range_over_channel_loops", n)
+}
+
+// ruleC07R5: a registration in a routing table of the wire connection is not skipped and installs a channel of its own.
+// A new holder of an alias that found an entry and kept it would inherit the previous holder's channel together with
+// whatever is still queued in it.
+func ruleC07R5(r *Run) {
+	r.Begin("R5", "a routing-table registration installs a fresh channel and is never skipped: where a /wire function stores a channel into a routing table, the channel is made in that function and no successful return bypasses the store (finding an entry already present is an error, not a reason to keep it)", 5)
+	p := r.P
+	for _, fn := range p.Funcs {
+		if fnPkgPath(fn) != modPath+"/wire" || fn.Blocks == nil {
+			continue
+		}
+		name := fnName(fn)
+		seen := map[string]int{}
+		allInstrs(fn, func(ins ssa.Instruction) {
+			mu, ok := ins.(*ssa.MapUpdate)
+			if !ok {
+				return
+			}
+			if _, isCh := mu.Value.Type().Underlying().(*types.Chan); !isCh {
+				return
+			}
+			fk := ""
+			if ld, isLd := mu.Map.(*ssa.UnOp); isLd && ld.Op == token.MUL {
+				fk = fieldKeyOfAddr(ld.X)
+			}
+			if fk == "" {
+				// a nested table (metadata[alias][node]): name it by the field the outer map was looked up in
+				if lk, isLk := mu.Map.(*ssa.Lookup); isLk {
+					if l2, is2 := lk.X.(*ssa.UnOp); is2 && l2.Op == token.MUL {
+						fk = fieldKeyOfAddr(l2.X)
+					}
+				}
+			}
+			if fk == "" {
+				return
+			}
+			seen[fk]++
+			key := name + " registers in " + fk
+			if seen[fk] > 1 {
+				key += fmt.Sprintf("#%d", seen[fk])
+			}
+			_, fresh := canonVal(mu.Value).(*ssa.MakeChan)
+			if ld, isLd := mu.Value.(*ssa.UnOp); isLd && ld.Op == token.MUL && !fresh {
+				// a variable shared with the enclosing function (the registration sits in a closure): made fresh when a
+				// store of a new channel into that variable dominates the registration
+				allInstrs(fn, func(x ssa.Instruction) {
+					if st, isSt := x.(*ssa.Store); isSt && st.Addr == ld.X && dominatesInstr(st, mu) {
+						if _, isMk := st.Val.(*ssa.MakeChan); isMk {
+							fresh = true
+						}
+					}
+				})
+			}
+			isMu := func(x ssa.Instruction) bool { return x == ssa.Instruction(mu) }
+			var bypass ssa.Instruction
+			if returnsError(fn) {
+				bypass, _ = successReturnWithout(fn, isMu)
+			} else {
+				bypass = reachesFromEntryWithout(fn, isReturn, isMu)
+			}
+			where := posOf(p, mu)
+			if bypass != nil {
+				where = posOf(p, bypass)
+			}
+			r.Check(key, fresh && bypass == nil, where, name, fmt.Sprintf("the stored channel is made here: %v; a successful return that bypasses the registration: %v (the new holder would keep the previous holder's channel and its queued messages)", fresh, bypass != nil))
+		})
+	}
+}
+
+// naturalLoop returns the blocks of the natural loop with header h (h and every block that reaches a back edge to h
+// without leaving h's dominance).
+func naturalLoop(h *ssa.BasicBlock) map[*ssa.BasicBlock]bool {
+	loop := map[*ssa.BasicBlock]bool{h: true}
+	var stack []*ssa.BasicBlock
+	for _, t := range h.Preds {
+		if h.Dominates(t) && !loop[t] {
+			loop[t] = true
+			stack = append(stack, t)
+		}
+	}
+	for len(stack) > 0 {
+		b := stack[len(stack)-1]
+		stack = stack[:len(stack)-1]
+		for _, pr := range b.Preds {
+			if !loop[pr] && h.Dominates(pr) {
+				loop[pr] = true
+				stack = append(stack, pr)
+			}
+		}
+	}
+	return loop
+}
+
+// derivesFrom: v is src or is read out of src (field, element, slice, tuple component, merged value).
+func derivesFrom(v, src ssa.Value, depth int) bool {
+	if depth > 10 || v == nil {
+		return false
+	}
+	if v == src {
+		return true
+	}
+	switch x := v.(type) {
+	case *ssa.UnOp:
+		return derivesFrom(x.X, src, depth+1)
+	case *ssa.Field:
+		return derivesFrom(x.X, src, depth+1)
+	case *ssa.FieldAddr:
+		return derivesFrom(x.X, src, depth+1)
+	case *ssa.Extract:
+		return derivesFrom(x.Tuple, src, depth+1)
+	case *ssa.Slice:
+		return derivesFrom(x.X, src, depth+1)
+	case *ssa.Index:
+		return derivesFrom(x.X, src, depth+1)
+	case *ssa.IndexAddr:
+		return derivesFrom(x.X, src, depth+1)
+	case *ssa.Phi:
+		for _, e := range x.Edges {
+			if derivesFrom(e, src, depth+1) {
+				return true
+			}
+		}
+	}
+	return false
 }
